@@ -544,6 +544,9 @@ where
         }
 
         let mut escape: Option<Escape> = None;
+        // Whether an argument has been started: a quoted empty string is an argument,
+        // separators alone are not.
+        let mut have_token = false;
         let mut i = 0;
         loop {
             if i == pending.len() {
@@ -564,7 +567,7 @@ where
                             format!("Unterminated quote: {q}"),
                         ));
                     }
-                    if i == 0 {
+                    if !have_token {
                         return Ok(None);
                     }
                     pending.clear();
@@ -582,15 +585,24 @@ where
                     result.push(c);
                     escape = None;
                 }
-                (None, c @ (b'"' | b'\'')) => escape = Some(Escape::Quote(c)),
-                (None, b'\\') => escape = Some(Escape::Slash),
+                (None, c @ (b'"' | b'\'')) => {
+                    escape = Some(Escape::Quote(c));
+                    have_token = true;
+                }
+                (None, b'\\') => {
+                    escape = Some(Escape::Slash);
+                    have_token = true;
+                }
                 (None, c) if c.is_ascii_whitespace() => {
-                    if !result.is_empty() {
+                    if have_token {
                         terminated_by_newline = c == b'\n';
                         break;
                     }
                 }
-                (None, c) => result.push(c),
+                (None, c) => {
+                    result.push(c);
+                    have_token = true;
+                }
             }
 
             i += 1;
